@@ -89,8 +89,10 @@ func c01SpecWire(o rObs) string {
 func c01Run(ci any) Result {
 	c := ci.(*c01Case)
 	var cur rObs
+	wf := rWFTable(c.Routes)
+	wfTag := map[bool]string{true: "well-formed-table", false: "table-outside-insert-theorem"}[wf]
 	e := rEchoWarm(c.Routes, c.Warm, []rReq{c.Req}, &cur)
-	tags := []string{}
+	tags := []string{wfTag}
 	if c.Warm > 0 && c.Warm < len(c.Routes) {
 		tags = append(tags, "request-before-later-registrations")
 	}
@@ -110,7 +112,7 @@ func c01Run(ci any) Result {
 		Ops: wJoin(rTableWire(c.Routes), wStr(c.Req.Method), wStr(c.Req.Path), wInt(rMaxParam(c.Routes))),
 		// "TI1 RS1": the tree the model builds for this table must satisfy the invariant of the refinement
 		// theorem and represent exactly the registered entries (checked by the driver for every table)
-		Obs: cur.wire() + " // " + c01SpecWire(cur) + " // TI1 RS1",
+		Obs: cur.wire() + " // " + c01SpecWire(cur) + " // TI1 RS1 " + map[bool]string{true: "WF1", false: "WF0"}[wf],
 	}
 	if !rHasTextAfterStar(c.Routes) {
 		res.Oracle = c01Oracle(c.Routes, c.Req, cur)
